@@ -153,7 +153,8 @@ class ElementFilter(object):
         results: _QueryResults = ResultSet(self)
         for match in self.filter(generator):
             results.append(match)
-            if limit is not None and len(results) >= limit:
+            if limit and len(results) >= limit:
+                # A limit of None or 0 means no limit.
                 break
         return results
 
